@@ -75,6 +75,39 @@ func shapesFor(exhaustDeg, maxDeg int) []shape {
 	return r
 }
 
+// irregularHoleShapes: degrees 9..17 with a hole (absent coefficient) at n-j while the coefficient at n+j is present, for
+// the power-of-two split points n = 4, 8, 16 of the Paterson-Stockmeyer decomposition (p = q*T_n + r moves c_{n+j} onto
+// index n-j of the remainder), plus two adjacent holes below each split point. Dense and parity-regular masks never have
+// this pattern.
+func irregularHoleShapes() []shape {
+	var r []shape
+	seen := map[[2]uint64]bool{}
+	add := func(d int, holes ...int) {
+		m := uint64(1)<<(d+1) - 1
+		name := fmt.Sprintf("d%d/holes", d)
+		for _, h := range holes {
+			m &^= 1 << h
+			name += fmt.Sprintf("-%d", h)
+		}
+		if !seen[[2]uint64{uint64(d), m}] {
+			seen[[2]uint64{uint64(d), m}] = true
+			r = append(r, mkShape(name, d, m))
+		}
+	}
+	for d := 9; d <= 17; d++ {
+		for _, n := range []int{4, 8, 16} {
+			if n >= d {
+				continue
+			}
+			for j := 1; j <= n && n+j <= d; j++ {
+				add(d, n-j)
+			}
+			add(d, n-1, n-2)
+		}
+	}
+	return r
+}
+
 // bitsLen is ceil(log2(d+1)): the documented number of levels for a polynomial of formal degree d.
 func bitsLen(d int) int {
 	n := 0
